@@ -57,6 +57,21 @@ func (s *Schema) Setup() []string {
 	return out
 }
 
+// WithoutRow returns a copy of the schema in which row ri of table ti is removed.
+func (s *Schema) WithoutRow(ti, ri int) *Schema {
+	out := &Schema{}
+	for k, t := range s.Tables {
+		if k != ti {
+			out.Tables = append(out.Tables, t)
+			continue
+		}
+		c := *t
+		c.Rows = append(append([][]string{}, t.Rows[:ri]...), t.Rows[ri+1:]...)
+		out.Tables = append(out.Tables, &c)
+	}
+	return out
+}
+
 // Setup renders the statements creating and filling one table.
 func (t *Table) Setup() []string {
 	var defs []string
